@@ -98,17 +98,19 @@ func callVars(p *Program, self string, st *Task, cs *CallSite, kind string, idx 
 	if callee != nil && callee.run() != "when_changed" {
 		parts = append(parts, "P: "+yq(pexpr(self, st)+suffix))
 	}
+	// every call passes V and W explicitly ("" = nothing): an unset variable and an empty one
+	// would otherwise be different "sets of variable values" for run: when_changed
 	switch {
 	case len(cs.For) > 0:
-		parts = append(parts, "V: '{{.ITEM}}'")
+		parts = append(parts, "V: '{{.ITEM}}'", "W: ''")
 	case cs.V == "$":
 		parts = append(parts, "V: '{{.V}}'", "W: '{{.W}}'")
 	case strings.Contains(cs.V, "+"):
 		// a pair value "x+y" stands for two variables V=x, W=y
 		f := strings.SplitN(cs.V, "+", 2)
 		parts = append(parts, "V: "+yq(f[0]), "W: "+yq(f[1]))
-	case cs.V != "":
-		parts = append(parts, "V: "+yq(cs.V))
+	default:
+		parts = append(parts, "V: "+yq(cs.V), "W: ''")
 	}
 	if len(parts) == 0 {
 		return ""
